@@ -95,6 +95,22 @@ CLAIMED = {
          "translator; harness (package-internal access through overlay)"),
    technique="Lean 4 arithmetic + invariant proofs (int32 semantics) + function-level differential",
    design='7/C12'),
+ 'C13': dict(
+   text=("Proof (Lean 4) over a state-machine model of the server's reaction to each client frame (processFrameFromReader, "
+         "processFrame, processSettings/Headers/TrailerHeaders/Data/ResetStream/Priority/WindowUpdate/GoAway, resetStream, goAway, "
+         "state()): a handler starts ONLY for a well-formed header block on a new, odd, strictly larger stream id below the "
+         "advertised limit (handler_only_for_new_odd_increasing); a legal frame, and a legal frame sequence of any length, draws "
+         "no error (legal_no_error_partial, legal_run_no_error_partial, with a non-vacuity session); the RFC's error for idle-stream "
+         "frames, bad stream ids, over-limit requests, DATA on closed streams, PUSH_PROMISE, window overflow, first-frame-not-SETTINGS, "
+         "and only RFC codes overall (idle_stream_is_connection_error … own_error_codes); every GOAWAY covers every handler started "
+         "before it over whole runs (goaway_covers, via step_mono / handler_sets_max); after an error GOAWAY nothing is served "
+         "(dead_forever). Model tied to the real serverConn by an exact differential of handler starts / RST_STREAM / GOAWAY after "
+         "EVERY frame of generated sequences over the whole alphabet (upstream's deterministic server tester)"),
+   note=("PARTIAL: header-field validation is abstracted to verdict classes (exercised per class by the differential; the framer's part "
+         "is C19); legality of SETTINGS_INITIAL_WINDOW_SIZE changes is only stated while no stream is open; handler-side aborts "
+         "racing with client frames are outside the model. Trusted: Lean kernel + standard axioms; harness"),
+   technique="Lean 4 theorems over an executable state-machine model + exact per-frame differential against the real server",
+   design='7/C13'),
  'C14': dict(
    text=("Proof (Lean 4) over a model of the two watched paths and CertWatcher's load-validate-then-swap: for EVERY history of update "
          "steps (incl. garbage, empty, partial, mismatched) the served pair is the initial one or one whose certificate and key were on "
